@@ -450,6 +450,10 @@ def call_method(ip, st, recv, name, args, kwargs):
             return DRef(d)
         if name == "update":
             for a in args:
+                if isinstance(a, (LRef, SSeq)) and not isinstance(Q.seq_len(a), int):
+                    raise Unsupported("dict.update(<sequence of symbolic length>) on a dict with constant keys")
+                if isinstance(a, LRef):
+                    a = a.seq
                 src = a.d if isinstance(a, DRef) else dict(a if not isinstance(a, tuple) else list(a))
                 d.update(src)
             d.update(kwargs)
